@@ -318,7 +318,7 @@ func runWorker(b *built, j *job, idx int, cpus int, timeout time.Duration) worke
 	os.WriteFile(jobPath, jb, 0644)
 	cmd := exec.Command(b.bin, "-test.run", "^TestWorker$", "-test.timeout", "0", "-test.cpu", strconv.Itoa(cpus), "-test.v")
 	cmd.Dir = b.scratch
-	cmd.Env = append(os.Environ(), "VERIF_JOB="+jobPath, "GORACE=halt_on_error=1 exitcode=66 history_size=2")
+	cmd.Env = append(os.Environ(), "VERIF_JOB="+jobPath, "GORACE=halt_on_error=1 exitcode=66 history_size=4")
 	var stderr bytes.Buffer
 	cmd.Stderr = &stderr
 	stdout, _ := cmd.StdoutPipe()
@@ -509,6 +509,7 @@ func cmdCheck(args []string) int {
 	infraMsg := ""
 	deadline := start.Add(time.Duration(maxWall) * time.Second)
 	widx := 0
+	inflight := 0
 	var wg sync.WaitGroup
 	chunkTimeout := time.Duration(p.ChunkTimeoutSecs) * time.Second
 	if chunkTimeout == 0 {
@@ -520,12 +521,19 @@ func cmdCheck(args []string) int {
 			defer wg.Done()
 			for {
 				mu.Lock()
-				if len(queue) == 0 || infraMsg != "" || time.Now().After(deadline) {
+				if infraMsg != "" || time.Now().After(deadline) || (len(queue) == 0 && inflight == 0) {
 					mu.Unlock()
 					return
 				}
+				if len(queue) == 0 {
+					// a running worker may still die and hand back the rest of its chunk
+					mu.Unlock()
+					time.Sleep(50 * time.Millisecond)
+					continue
+				}
 				c := queue[0]
 				queue = queue[1:]
+				inflight++
 				widx++
 				idx := widx
 				mu.Unlock()
@@ -533,6 +541,7 @@ func cmdCheck(args []string) int {
 					MaxSecs: int(time.Until(deadline).Seconds()) + 1}
 				r := runWorker(b, j, idx, 1+idx%4, chunkTimeout)
 				mu.Lock()
+				inflight--
 				if r.agg != nil {
 					a := r.agg
 					merged.Runs += a.Runs
@@ -682,16 +691,20 @@ func writeJSON(path string, v interface{}) {
 // confirmReplay re-executes a replay file in a fresh process and reports whether the same class shows again.
 func confirmReplay(b *built, rf *replayFile, kn []known) bool {
 	j := &job{Property: rf.Property, Engine: rf.Engine, Tier: "quick", Seed: rf.Seed, Replay: rf, Known: kn, Group: props[rf.Property].Group}
-	r := runWorker(b, j, 100000+rf.Run, 2, 10*time.Minute)
-	if r.agg != nil && r.agg.Replayed != nil {
-		return r.agg.Replayed.Reproduced
-	}
-	// process-level failures reproduce by dying the same way
-	if c, ok := raceClass(rf.Property, r.stderr); ok && c == rf.Class {
-		return true
-	}
-	if strings.Contains(rf.Class, "fatal-error") && strings.Contains(r.stderr, "fatal error") {
-		return true
+	// the race detector's shadow memory keeps a bounded history, so a race report is not guaranteed on
+	// every execution of the same schedule: process-level failures get three attempts
+	for attempt := 0; attempt < 3; attempt++ {
+		r := runWorker(b, j, 100000+rf.Run*4+attempt, 2, 10*time.Minute)
+		if r.agg != nil && r.agg.Replayed != nil {
+			return r.agg.Replayed.Reproduced
+		}
+		// process-level failures reproduce by dying the same way
+		if c, ok := raceClass(rf.Property, r.stderr); ok && c == rf.Class {
+			return true
+		}
+		if strings.Contains(rf.Class, "fatal-error") && strings.Contains(r.stderr, "fatal error") {
+			return true
+		}
 	}
 	return false
 }
